@@ -24,6 +24,7 @@ type Program struct {
 	mu      sync.Mutex
 	built   map[*ssa.Package]bool
 	errType types.Type
+	rtypeT  types.Type
 	msCache sync.Map
 	RepoDir string
 	Overlay map[string][]byte
